@@ -306,16 +306,16 @@ fn run(ctx: &mut Ctx) {
     };
     let t = ctx.tier;
     let plan = Plan {
-        bytes_n: t.pick(6, 7),
+        bytes_n: t.pick(7, 8),
         tokens_k: t.pick(4, 5),
         pool: true,
-        grammar_docs: t.pick(30_000, 600_000),
+        grammar_docs: t.pick(100_000, 1_000_000),
         mutants_per_doc: 3,
         truncate_all: true,
         bom_share: 4,
         corpus: true,
         corpus_truncs: t.pick(16, 64),
-        random_atoms: t.pick(200_000, 3_000_000),
+        random_atoms: t.pick(500_000, 5_000_000),
         ..Plan::default()
     };
     for_each_input(ctx, &plan, &mut |ctx, input, src, r| {
